@@ -30,6 +30,9 @@ pub struct Args {
     pub check: bool,
     pub quiet: bool,
     pub verbose: bool,
+    /// `-a` / `-p`: the debug dumps of the syntax tree and of the pretty document
+    pub ast: bool,
+    pub pretty_doc: bool,
     pub column: usize,
     pub tab: usize,
     pub reorder: bool,
@@ -204,7 +207,11 @@ pub fn scenario(idx: u64) -> Scenario {
         1 => 4,
         _ => r.below(17),
     };
-    Scenario { root_name, tree, args: Args { cmd, inplace, check, quiet, verbose, column, tab, reorder: r.below(3) == 0 } }
+    let reorder = r.below(3) == 0;
+    // the debug options (drawn last: the rest of a scenario does not depend on them)
+    let dbg = r.below(10);
+    let (ast, pretty_doc) = (dbg == 0 || dbg == 2, dbg == 1 || dbg == 2);
+    Scenario { root_name, tree, args: Args { cmd, inplace, check, quiet, verbose, ast, pretty_doc, column, tab, reorder } }
 }
 
 // ---------------------------------------------------------------------------------------------
@@ -331,6 +338,12 @@ pub fn argv(a: &Args) -> Vec<String> {
     if a.verbose {
         v.push("-v".into());
     }
+    if a.ast {
+        v.push("-a".into());
+    }
+    if a.pretty_doc {
+        v.push("-p".into());
+    }
     v.push("-c".into());
     v.push(a.column.to_string());
     v.push("-t".into());
@@ -356,6 +369,50 @@ pub fn run_real(bin: &str, sc: &Scenario, scratch: &Path) -> Observed {
     let _ = std::fs::remove_dir_all(scratch);
     let past = SystemTime::UNIX_EPOCH + Duration::from_secs(1_500_000_000);
     materialise(&sc.tree, &root, past);
+    // The debug options print a dump of the syntax tree (`-a`) and of the pretty document (`-p`,
+    // well-formed inputs only) before each input's result.  The dumps are computed here in-process
+    // from what the binary will read (in order; an input rewritten in place earlier in the same
+    // invocation is read in its new state) and removed from the captured output below, so that the
+    // oracles and the model see what a run without the debug options must print.
+    let mut dumps: Vec<String> = vec![];
+    let a0 = &sc.args;
+    let usage = (a0.inplace && a0.check) || (a0.inplace && matches!(a0.cmd, Cmd::Stdin(_)));
+    if (a0.ast || a0.pretty_doc) && !usage {
+        let cfg = Cfg { tab: a0.tab, width: a0.column, blank: 2, reorder: a0.reorder };
+        let mut current: BTreeMap<PathBuf, String> = BTreeMap::new();
+        let texts: Vec<(Option<PathBuf>, String)> = match &a0.cmd {
+            Cmd::Files(ps) => ps
+                .iter()
+                .filter_map(|p| {
+                    let full = root.join(p);
+                    let key = full.canonicalize().ok()?;
+                    let t = std::fs::read_to_string(&full).ok()?;
+                    Some((Some(key), t))
+                })
+                .collect(),
+            Cmd::Stdin(s) => vec![(None, s.clone())],
+            Cmd::FormatAll(_) => vec![],
+        };
+        for (key, t0) in texts {
+            let t = key.as_ref().and_then(|k| current.get(k).cloned()).unwrap_or(t0);
+            let source = typst_syntax::Source::detached(t.clone());
+            if a0.ast {
+                dumps.push(format!("{:#?}\n", source.root()));
+            }
+            let mut d = String::new();
+            let res = typstyle_core::Typstyle::new(cfg.to_config()).format_source_inspect(&source, |doc| d = format!("{:#?}\n", doc));
+            if let Ok(res) = res {
+                if a0.pretty_doc {
+                    dumps.push(d);
+                }
+                if a0.inplace && !a0.check && res != t {
+                    if let Some(k) = key {
+                        current.insert(k, res);
+                    }
+                }
+            }
+        }
+    }
     let mut c = Command::new(bin);
     c.args(argv(&sc.args)).current_dir(&root).env("NO_COLOR", "1").stdout(Stdio::piped()).stderr(Stdio::piped());
     let out = match &sc.args.cmd {
@@ -373,7 +430,31 @@ pub fn run_real(bin: &str, sc: &Scenario, scratch: &Path) -> Observed {
     let mut touched = BTreeMap::new();
     let tree = read_back(&sc.tree, &root, past, "", &mut touched);
     let rootp = format!("{}/", root.display());
-    let stdout = String::from_utf8_lossy(&out.stdout).replace(&rootp, "");
+    let mut stdout = String::from_utf8_lossy(&out.stdout).to_string();
+    if !dumps.is_empty() {
+        // remove the dumps, in order; if one is missing or out of place the output is left as it is
+        // (and will not be what the oracles and the model expect)
+        let mut rest: &str = &stdout;
+        let mut kept = String::new();
+        let mut ok = true;
+        for d in &dumps {
+            match rest.find(d.as_str()) {
+                Some(pos) => {
+                    kept += &rest[..pos];
+                    rest = &rest[pos + d.len()..];
+                }
+                None => {
+                    ok = false;
+                    break;
+                }
+            }
+        }
+        if ok {
+            kept += rest;
+            stdout = kept;
+        }
+    }
+    let stdout = stdout.replace(&rootp, "");
     let stderr = String::from_utf8_lossy(&out.stderr).replace(&rootp, "");
     Observed { exit: out.status.code().unwrap_or(-1), stdout, stderr, tree, touched }
 }
